@@ -25,9 +25,22 @@ func checkC12(r *Run) {
 	r5 := r.Rule("R-C12-5", "stage monotonicity: after PUBREC only PUBREL-stage handles; no call path to (*pktPublish).Pack")
 	r6 := r.Rule("R-C12-6", "QoS 0 publish never produces a retry handle")
 	r7 := r.Rule("R-C12-7", "Retry re-queues exactly the failed entry's continuation followed by the unattempted tail")
+	r8 := r.Rule("R-C12-8", "the DUP bit on the wire is Message.Dup for every QoS: PUBLISH header = 0x30 | retain | qos | (Dup ? 0x08), the DUP contribution not nested in a QoS arm")
 	r1.Floor(1)
 	r3.Floor(3)
 	r5.Floor(3)
+	for _, pi := range c.packSites() {
+		if pi.T != "pktPublish" {
+			continue
+		}
+		cc := c.newChain()
+		base, items, ok := cc.decomposeOr(pi.Call.Call.Args[0])
+		if !ok {
+			r8.Undecided(FuncName(pi.F)+"/header", pi.Call.Pos(), "cannot decompose the PUBLISH header byte (%s)", cc.err)
+			continue
+		}
+		c.checkPublishHeader(r8, pi, base, items)
+	}
 
 	sites := c.sitesOrLost(r5)
 	uses := c.ruleRetryableFailures(nil, sites)
